@@ -30,6 +30,11 @@ def handle1 (op : String) (args : List Sexp) : Option String := do
       match ← Val.ofSexp as, ← Val.ofSexp kw with
       | .list as, .dict kw => pure (reply (callLifted recorder top as kw))
       | _, _ => Option.none
+  | "lib", [Sexp.atom _, v, kw] =>
+      -- a library helper built with loop(list, dict, tuple): `_helper(v, **kw)`; the reply holds the leaf calls
+      match ← Val.ofSexp v, ← Val.ofSexp kw with
+      | v, .dict kw => pure (reply (wrapped recorderPure v [] kw))
+      | _, _ => Option.none
   | "select", [v, p, c] =>
       let v ← Val.ofSexp v; let p ← pathOf (← Val.ofSexp p); let c ← Val.ofSexp c
       pure (reply (.ok (select v p c)))
